@@ -19,16 +19,30 @@
 (* PeerClose.  A write takes min(room, length) bytes, EAGAIN when room = 0.                                    *)
 (* Bytes are tagged <<sendIdx, offset>>.  ET = edge-triggered epoll (the default), otherwise level-triggered.  *)
 (*                                                                                                          *)
+(* Sends from the I/O thread itself: a data callback may call send(); it goes through the same command queue   *)
+(* (CbSend inside the callback state "cb", entered by the Recv that delivers a peer write marked PeerWriteGated - *)
+(* the conformance driver parks the real I/O thread there), while worker threads' AppSend are accepted at the    *)
+(* same time.  The accepted order is the command-queue order whoever called.                                    *)
+(* TLS receive side: SSL_read decrypts one record (<= RecMax bytes) into the SSL object and hands out at most    *)
+(* Chunk bytes (ioReadChunk); the rest stays buffered in the SSL object (sbuf), invisible to epoll: the edge- or  *)
+(* level-triggered re-notification depends on the SOCKET (kbuf) only.                                            *)
+(*                                                                                                          *)
 (* Deviation flags (all FALSE = the design the code is meant to follow); each is a realistic slip and is used  *)
 (* by the check's self-test (TLC must reject it):                                                            *)
 (*   Dev_PartialTailToBack      a partially written front buffer is re-queued at the back                      *)
 (*   Dev_KeepWrittenPrefix      the written prefix of a partially written buffer is not erased                 *)
 (*   Dev_NoRearmAfterShortSend  doSend's short direct write does not arm EPOLLOUT                              *)
 (*   Dev_StopReadAfterShort     the read loop stops after a short read instead of at EAGAIN                    *)
+(*   Dev_LtStopsAfterOneChunk   level-triggered: the read loop returns after one read ("epoll will tell us again")      *)
+(*   Dev_IoSendBypassesQueue    a send issued on the I/O thread is dispatched ahead of the commands already accepted    *)
+(*   Dev_DirectWriteIgnoresQueue doSend writes directly although the write queue still holds an unsent tail             *)
 EXTENDS Integers, Sequences, FiniteSets, TLC
 
 CONSTANTS Threads, MaxSends, MaxLen, MaxRoom, MaxWq, Tls, ET, PeerBytes, MaxRcut, AllowClose,
-          Dev_PartialTailToBack, Dev_KeepWrittenPrefix, Dev_NoRearmAfterShortSend, Dev_StopReadAfterShort
+          Chunk, RecMax,   \* ioReadChunk; plaintext bytes of one TLS record
+          AllowCb,         \* the data callback may park and send
+          Dev_PartialTailToBack, Dev_KeepWrittenPrefix, Dev_NoRearmAfterShortSend, Dev_StopReadAfterShort,
+          Dev_LtStopsAfterOneChunk, Dev_IoSendBypassesQueue, Dev_DirectWriteIgnoresQueue
 
 VARIABLES nextIdx,    \* next send index
           acc,        \* ghost: accepted sends in command-queue order, Seq([idx, off, len]) with off = 0
@@ -42,18 +56,20 @@ VARIABLES nextIdx,    \* next send index
           room,       \* bytes the kernel accepts now
           errNext,    \* the next write call fails with a hard error
           closed,
-          io,         \* "idle" | "wp" (inside writePending) | "rd" (inside readAvail)
+          io,         \* "idle" | "wp" (inside writePending) | "rd" (inside readAvail) | "cb" (inside the data callback)
           \* ---- read side (counts are enough: the peer writes one ordered stream)
           pw,         \* bytes written by the peer
           kbuf,       \* bytes waiting in the socket receive buffer
           inEvt,      \* an EPOLLIN event is queued
           rcut,       \* a read returns at most rcut bytes
           delivered,  \* bytes handed to the data callback
-          peerFin     \* the peer has closed its side
+          peerFin,    \* the peer has closed its side
+          sbuf,       \* TLS: bytes decrypted into the SSL object but not yet handed to the data callback (SSL_pending)
+          gate        \* the next data callback parks (and may send) before it returns
 vars == <<nextIdx, acc, cmdq, wq, sslPend, wire, tls, wantWrite, armed, outEvt, room, errNext, closed, io,
-          pw, kbuf, inEvt, rcut, delivered, peerFin>>
+          pw, kbuf, inEvt, rcut, delivered, peerFin, sbuf, gate>>
 wvars == <<nextIdx, acc, cmdq, wq, sslPend, wire, tls, wantWrite, armed, outEvt, room, errNext, closed>>
-rvars == <<pw, kbuf, inEvt, rcut, delivered, peerFin>>
+rvars == <<pw, kbuf, inEvt, rcut, delivered, peerFin, sbuf, gate>>
 
 Min(a, b) == IF a < b THEN a ELSE b
 Bytes(idx, a, b) == [i \in 1..(b - a) |-> <<idx, a + i - 1>>]          \* bytes a .. b-1 of send idx
@@ -66,6 +82,7 @@ Init == /\ nextIdx = 1 /\ acc = <<>> /\ cmdq = <<>> /\ wq = <<>> /\ sslPend = 0 
         /\ wantWrite = FALSE /\ armed = FALSE /\ outEvt = FALSE /\ room = 0 /\ errNext = FALSE /\ closed = FALSE
         /\ io = "idle"
         /\ pw = 0 /\ kbuf = 0 /\ inEvt = FALSE /\ rcut = MaxRcut /\ delivered = 0 /\ peerFin = FALSE
+        /\ sbuf = 0 /\ gate = FALSE
 
 \* updateInterest(): EPOLLOUT iff wantWrite or the queue is not empty; EPOLL_CTL_MOD re-evaluates readiness
 Rearm(ww, q, rm) == /\ armed' = (ww \/ q # <<>>)
@@ -112,6 +129,13 @@ DoSendDirect(k) ==
               /\ wantWrite' = TRUE
               /\ IF Dev_NoRearmAfterShortSend THEN UNCHANGED <<armed, outEvt>> ELSE Rearm(TRUE, <<Buf>>, room - k)
     /\ UNCHANGED <<nextIdx, acc, tls, errNext, closed, io>> /\ UNCHANGED rvars
+
+\* deviation: a direct write although an unsent tail is still queued (it overtakes the tail when the kernel has room again)
+DoSendDirectOvertake ==
+    /\ Dev_DirectWriteIgnoresQueue
+    /\ Proc("send") /\ ~closed /\ tls = "None" /\ wq # <<>> /\ ~errNext /\ room >= Cmd.len
+    /\ wire' = wire \o Bytes(Cmd.idx, 0, Cmd.len) /\ room' = room - Cmd.len
+    /\ UNCHANGED <<nextIdx, acc, wq, sslPend, tls, wantWrite, armed, outEvt, errNext, closed, io>> /\ UNCHANGED rvars
 
 EnqueueBack == /\ wq' = Append(wq, Buf) /\ wantWrite' = TRUE /\ Rearm(TRUE, Append(wq, Buf), room)
                /\ UNCHANGED <<sslPend, errNext, closed, io>>
@@ -191,36 +215,62 @@ InjectErr == /\ ~errNext /\ ~closed /\ tls # "Handshake" /\ errNext' = TRUE
 \* ------------------------------------------------------------------ read side
 PeerWrite(n) == /\ tls # "Handshake" /\ ~peerFin /\ pw + n <= PeerBytes
                 /\ pw' = pw + n /\ kbuf' = kbuf + n /\ inEvt' = TRUE
-                /\ UNCHANGED <<rcut, delivered, peerFin, io>> /\ UNCHANGED wvars
+                /\ UNCHANGED <<rcut, delivered, peerFin, sbuf, gate, io>> /\ UNCHANGED wvars
+\* the same, and the data callback that delivers (part of) it parks
+PeerWriteGated(n) == /\ AllowCb /\ ~gate /\ ~closed /\ tls # "Handshake" /\ ~peerFin /\ pw + n <= PeerBytes
+                     /\ pw' = pw + n /\ kbuf' = kbuf + n /\ inEvt' = TRUE /\ gate' = TRUE
+                     /\ UNCHANGED <<rcut, delivered, peerFin, sbuf, io>> /\ UNCHANGED wvars
 PeerClose == /\ AllowClose /\ tls # "Handshake" /\ ~peerFin /\ peerFin' = TRUE /\ inEvt' = TRUE
-             /\ UNCHANGED <<pw, kbuf, rcut, delivered, io>> /\ UNCHANGED wvars
+             /\ UNCHANGED <<pw, kbuf, rcut, delivered, sbuf, gate, io>> /\ UNCHANGED wvars
 \* (cuts only get tighter, so that a behaviour contains at most MaxRcut - 1 of these steps)
-SetRcut(k) == /\ k < rcut /\ rcut' = k /\ UNCHANGED <<pw, kbuf, inEvt, delivered, peerFin, io>> /\ UNCHANGED wvars
+SetRcut(k) == /\ k < rcut /\ rcut' = k /\ UNCHANGED <<pw, kbuf, inEvt, delivered, peerFin, sbuf, gate, io>> /\ UNCHANGED wvars
 
+\* epoll looks at the socket only - never at what the SSL object has buffered
 InReady == ~closed /\ (IF ET THEN inEvt ELSE (kbuf > 0 \/ peerFin))
 EpollInFires == /\ io = "idle" /\ InReady /\ tls # "Handshake"
                 /\ inEvt' = FALSE /\ io' = "rd"
-                /\ UNCHANGED <<pw, kbuf, rcut, delivered, peerFin>> /\ UNCHANGED wvars
-\* one recv()/SSL_read() + data callback
-Recv(k) == /\ io = "rd" /\ kbuf > 0 /\ k = Min(kbuf, rcut)
-           /\ kbuf' = kbuf - k /\ delivered' = delivered + k
-           /\ io' = IF Dev_StopReadAfterShort THEN "idle" ELSE "rd"
-           /\ UNCHANGED <<pw, inEvt, rcut, peerFin>> /\ UNCHANGED wvars
-RecvEagain == /\ io = "rd" /\ kbuf = 0 /\ ~peerFin /\ io' = "idle"
-              /\ UNCHANGED <<pw, kbuf, inEvt, rcut, delivered, peerFin>> /\ UNCHANGED wvars
-RecvZero == /\ io = "rd" /\ kbuf = 0 /\ peerFin
+                /\ UNCHANGED <<pw, kbuf, rcut, delivered, peerFin, sbuf, gate>> /\ UNCHANGED wvars
+\* where the loop goes after one read + data callback
+StopsEarly == Dev_StopReadAfterShort \/ (Dev_LtStopsAfterOneChunk /\ ~ET)
+AfterRead == /\ io' = IF gate THEN "cb" ELSE IF StopsEarly THEN "idle" ELSE "rd"
+             /\ gate' = FALSE
+\* plain: one recv() of at most min(read cut, ioReadChunk) bytes + data callback
+Recv(k) == /\ io = "rd" /\ tls # "Open" /\ kbuf > 0 /\ k = Min(kbuf, Min(rcut, Chunk))
+           /\ kbuf' = kbuf - k /\ delivered' = delivered + k /\ AfterRead
+           /\ UNCHANGED <<pw, inEvt, rcut, peerFin, sbuf>> /\ UNCHANGED wvars
+\* TLS: one SSL_read(): when nothing is buffered it first decrypts the next record (the BIO reads the socket for it, short
+\* reads or not), then hands out at most ioReadChunk bytes; the rest stays in the SSL object
+SslRead(k) == /\ io = "rd" /\ tls = "Open" /\ (sbuf > 0 \/ kbuf > 0)
+              /\ LET pull == IF sbuf = 0 THEN Min(kbuf, RecMax) ELSE 0 IN
+                 /\ k = Min(sbuf + pull, Chunk)
+                 /\ sbuf' = sbuf + pull - k /\ kbuf' = kbuf - pull /\ delivered' = delivered + k
+              /\ AfterRead
+              /\ UNCHANGED <<pw, inEvt, rcut, peerFin>> /\ UNCHANGED wvars
+RecvEagain == /\ io = "rd" /\ kbuf = 0 /\ sbuf = 0 /\ ~peerFin /\ io' = "idle"
+              /\ UNCHANGED <<pw, kbuf, inEvt, rcut, delivered, peerFin, sbuf, gate>> /\ UNCHANGED wvars
+RecvZero == /\ io = "rd" /\ kbuf = 0 /\ sbuf = 0 /\ peerFin
             /\ CloseSess
             /\ UNCHANGED <<nextIdx, acc, cmdq, wire, tls, room>> /\ UNCHANGED rvars
+\* inside the (parked) data callback: the I/O thread calls send() itself - through the same command queue
+CbSend(n) == /\ io = "cb" /\ nextIdx <= MaxSends
+             /\ LET c == [k |-> "send", idx |-> nextIdx, off |-> 0, len |-> n] IN
+                cmdq' = IF Dev_IoSendBypassesQueue THEN <<c>> \o cmdq ELSE Append(cmdq, c)
+             /\ acc' = Append(acc, [idx |-> nextIdx, off |-> 0, len |-> n])
+             /\ nextIdx' = nextIdx + 1
+             /\ UNCHANGED <<wq, sslPend, wire, tls, wantWrite, armed, outEvt, room, errNext, closed, io>> /\ UNCHANGED rvars
+CbReturn == /\ io = "cb" /\ io' = IF StopsEarly THEN "idle" ELSE "rd"
+            /\ UNCHANGED rvars /\ UNCHANGED wvars
 
 IoNext == \/ ProcessClose \/ DoSendDropClosed \/ DoSendHandshakeQueue \/ (\E k \in 1..MaxLen : DoSendDirect(k))
-          \/ DoSendEagain \/ DoSendError \/ QueueBack \/ BackpressureClose
+          \/ DoSendEagain \/ DoSendError \/ QueueBack \/ BackpressureClose \/ DoSendDirectOvertake
           \/ EpollOutFires \/ WpEmpty \/ WritePendingError \/ WritePendingEagain \/ WritePendingFull
           \/ (\E k \in 1..MaxRoom : WritePendingPartial(k))
           \/ HandshakeDone
-          \/ EpollInFires \/ (\E k \in 1..MaxRcut : Recv(k)) \/ RecvEagain \/ RecvZero
+          \/ EpollInFires \/ (\E k \in 1..PeerBytes : Recv(k) \/ SslRead(k)) \/ RecvEagain \/ RecvZero
+          \/ (\E n \in 1..MaxLen : CbSend(n)) \/ CbReturn
 EnvNext == \/ (\E t \in Threads, n \in 1..MaxLen : AppSend(t, n)) \/ AppClose
            \/ (\E n \in 1..MaxRoom : KernelDrain(n)) \/ InjectErr
-           \/ (\E n \in 1..PeerBytes : PeerWrite(n)) \/ PeerClose \/ (\E k \in 1..MaxRcut : SetRcut(k))
+           \/ (\E n \in 1..PeerBytes : PeerWrite(n) \/ PeerWriteGated(n)) \/ PeerClose \/ (\E k \in 1..MaxRcut : SetRcut(k))
 Next == IoNext \/ EnvNext
 Spec == Init /\ [][Next]_vars
 \* the I/O thread keeps running and the peer keeps reading
@@ -234,14 +284,14 @@ CmdBytes == Flat(SelectSeq(cmdq, LAMBDA c : c.k = "send"))
 Inv_Stream == ~closed => wire \o WqBytes \o CmdBytes = AccBytes
 \* always (also after an early end): the peer sees a prefix
 Inv_WirePrefix == IsPrefix(wire, AccBytes)
-Inv_Read == delivered + kbuf = pw
+Inv_Read == delivered + sbuf + kbuf = pw
 Inv_Types == /\ sslPend >= 0 /\ (sslPend > 0 => (wq # <<>> /\ tls = "Open" /\ sslPend < Front.len - Front.off))
              /\ room \in 0..MaxRoom /\ Len(wq) <= MaxSends     \* (the handshake queue is not bounded by maxWriteQueue)
 \* lost wake-ups as a safety property: when the kernel has room, nothing is queued in epoll and the I/O thread is idle with
 \* an empty command queue, nothing may be left in the write queue or in the receive buffer of an open session
 Quiescent == io = "idle" /\ cmdq = <<>> /\ room = MaxRoom /\ tls # "Handshake" /\ ~OutReady /\ ~InReady
-Inv_NoStuck == (Quiescent /\ ~closed) => (wq = <<>> /\ kbuf = 0)
+Inv_NoStuck == (Quiescent /\ ~closed) => (wq = <<>> /\ kbuf = 0 /\ sbuf = 0)
 \* liveness under fairness
 Live_Write == (wq # <<>> /\ ~closed /\ tls # "Handshake") ~> (wq = <<>> \/ closed)
-Live_Read == (kbuf > 0 /\ ~closed) ~> (kbuf = 0 \/ closed)
+Live_Read == (kbuf + sbuf > 0 /\ ~closed) ~> ((kbuf = 0 /\ sbuf = 0) \/ closed)
 =============================================================================
